@@ -342,15 +342,27 @@ impl<'a> ReadAdapter<'a> {
             0 => {
                 let buf = self.non_empty_reader_buffer_mut()?;
                 if buf.len() < N {
-                    return Err(DeserializationError::UnexpectedEOF);
+                    // The reader's current chunk is too short, but we haven't necessarily
+                    // reached eof yet, so fall back to filling `self.buf`
+                    self.buffer_at_least(N)?;
+                    // SAFETY: `buffer_at_least` guarantees at least N buffered bytes
+                    unsafe {
+                        core::ptr::copy_nonoverlapping(
+                            self.buffer().as_ptr(),
+                            output.as_mut_ptr(),
+                            N,
+                        );
+                    }
+                    self.pos += N;
+                } else {
+                    // SAFETY: This copy is guaranteed to be safe, as we have validated above
+                    // that `buf` has at least N bytes, and `output` is defined to be exactly
+                    // N bytes.
+                    unsafe {
+                        core::ptr::copy_nonoverlapping(buf.as_ptr(), output.as_mut_ptr(), N);
+                    }
+                    self.reader.get_mut().consume(N);
                 }
-                // SAFETY: This copy is guaranteed to be safe, as we have validated above
-                // that `buf` has at least N bytes, and `output` is defined to be exactly
-                // N bytes.
-                unsafe {
-                    core::ptr::copy_nonoverlapping(buf.as_ptr(), output.as_mut_ptr(), N);
-                }
-                self.reader.get_mut().consume(N);
             },
             n if n >= N => {
                 // SAFETY: This copy is guaranteed to be safe, as we have validated above
@@ -393,10 +405,9 @@ impl<'a> ReadAdapter<'a> {
                     },
                     // We didn't get enough, but haven't necessarily reached eof yet, so fall back
                     // to filling `self.buf`
-                    m => {
-                        let needed = N - (m + n);
+                    _ => {
                         drop(reader_buf);
-                        self.buffer_at_least(needed)?;
+                        self.buffer_at_least(N)?;
                         debug_assert!(self.buffer().len() >= N, "expected buffer to be at least {N} bytes after call to buffer_at_least");
                         // SAFETY: This is guaranteed to be an in-bounds copy
                         unsafe {
@@ -418,20 +429,21 @@ impl<'a> ReadAdapter<'a> {
             unsafe {
                 self.buf.set_len(0);
             }
+            self.pos = 0;
         }
 
         Ok(output)
     }
 
-    /// Fill `self.buf` with `count` bytes
+    /// Fill `self.buf` until it holds at least `count` unread bytes
     ///
     /// This should only be called when we can't read from the reader directly
-    fn buffer_at_least(&mut self, mut count: usize) -> Result<(), DeserializationError> {
-        // Read until we have at least `count` bytes, or until we reach end-of-file,
+    fn buffer_at_least(&mut self, count: usize) -> Result<(), DeserializationError> {
+        // Read until we have at least `count` unread bytes, or until we reach end-of-file,
         // which ever comes first.
         loop {
-            // If we have succesfully read `count` bytes, we're done
-            if count == 0 || self.buf.len() >= count {
+            // If we have succesfully buffered `count` unread bytes, we're done
+            if self.buffer().len() >= count {
                 break Ok(());
             }
 
@@ -447,7 +459,6 @@ impl<'a> ReadAdapter<'a> {
             let consumed = buf.len();
             self.buf.extend_from_slice(buf);
             reader.consume(consumed);
-            count = count.saturating_sub(consumed);
         }
     }
 }
@@ -504,7 +515,9 @@ impl<'a> ByteReader for ReadAdapter<'a> {
         // this will return an error if we hit EOF first
         self.buffer_at_least(len)?;
 
-        Ok(&self.buffer()[0..len])
+        let start = self.pos;
+        self.pos += len;
+        Ok(&self.buf[start..start + len])
     }
 
     #[inline]
